@@ -866,8 +866,11 @@ class Gen:
                 self.tag("param:array")
             elif k == "fptr":
                 env.fptrs.append(name)
-                out += self.type_lex(d.choice(["int", "void", "char"])) + [SP(), Lx("(", "par"), Lx("*", "op", ("ptr-param",)), Lx(name, "id", ("param-name",)),
-                                                                            Lx(")", "par"), Lx("(", "par")] + self.ptypes() + [Lx(")", "par")]
+                rstar = [Lx("*", "op", ("ptr-in-type",))] if d.bool(0.35) else []
+                if rstar:
+                    self.tag("param:fptr-returning-pointer")
+                out += self.type_lex(d.choice(["int", "void", "char"])) + [SP()] + rstar + [Lx("(", "par"), Lx("*", "op", ("ptr-param",)), Lx(name, "id", ("param-name",)),
+                                                                                           Lx(")", "par"), Lx("(", "par")] + self.ptypes() + [Lx(")", "par")]
                 self.tag("param:fptr")
             else:
                 ty, mem = self.struct_type()
@@ -1107,6 +1110,11 @@ def gen_c(d, opts=None, name=None):
     if not opts.get("no_header"):
         g.header(base)
         g.blank()
+    if d.bool(0.2):
+        for _ in range(d.int(1, 3)):
+            g.comment_lines()
+        g.blank()
+        g.tag("section:leading-comments")
     if d.bool(0.7):
         for _ in range(d.int(1, 3)):
             g.include_line()
@@ -1238,7 +1246,11 @@ def gen_h(d, opts=None, name=None, guard=True):
             b(col)
     g.blank()
     if guard:
-        g.emit([Lx("#", "hash"), Lx("endif", "pp")], "endif", 0, -1, info={"ppdepth": 0, "guard": True})
+        tail = []
+        if d.bool(0.3):
+            tail = [SP(), Lx(d.choice(["/* %s */" % sym, "// %s" % sym, "/* !%s */" % sym]), "cmt", ("endif-comment",))]
+            g.tag("endif-comment")
+        g.emit([Lx("#", "hash"), Lx("endif", "pp")] + tail, "endif", 0, -1, info={"ppdepth": 0, "guard": True})
     return p
 
 
@@ -1288,6 +1300,9 @@ def _struct_block(g, k):
     def emit(col):
         head = ([Lx("typedef", "kw"), SP()] if tname else []) + [Lx(kw, "kw"), SP(), Lx(tag, "id", ("tag-name",))]
         g.emit(head, "utype_open", 0, -1, info={"kw": kw, "typedef": bool(tname)})
+        if g.d.bool(0.12):
+            g.comment_lines()     # a comment on its own line(s) between the head of the type and its brace
+            g.tag("comment:between-utype-head-and-brace")
         g.emit([Lx("{", "brace")], "lbrace", 0, -1, info={"utype": True})
         mcol = g.align_col([len(t) for t, _ in mem], 4)
         for ty, dec in mem:
